@@ -209,6 +209,21 @@ theorem export_times_samples (cfg : Cfg) (v : View) (gen : Nat → String) (fs :
       some (fresh (v.samples.map Row.z)) :=
   Lemmas.export_times_samples cfg v gen fs h
 
+/-- THE ID TABLES: for a conversion into an empty output directory, `spikes.clusters[.label].npy` and
+`spikes.templates[.label].npy` — copied from `spike_clusters.npy` / `spike_templates.npy` (squeezed when stored as
+`(n,1)`), relabelled, then cast to uint16 by `compress_spikes_dtypes` — hold exactly the rows of the source file
+when every id is below 65536 (the bound in the property's quantifier; a larger id wraps modulo 2^16 in the model
+as in the code).  The two globs of `compress_spikes_dtypes` match no other file of the output directory. -/
+theorem export_ids (cfg : Cfg) (v : View) (gen : Nat → String) (src : FDir) (h : Convertible cfg ⟨src, []⟩)
+    (attr : String) (srcName : Name)
+    (hattr : (attr = "clusters" ∧ srcName = ["spike_clusters", "npy"]) ∨
+             (attr = "templates" ∧ srcName = ["spike_templates", "npy"]))
+    (e : Entry) (he : src.lookup srcName = some e)
+    (hrows : ∀ r ∈ e.rows, ∃ z, r = Row.z z ∧ 0 ≤ z ∧ z < 65536) :
+    ∃ e', (convertFS cfg v gen ⟨src, []⟩).fs.out.lookup (labelled' cfg.label ["spikes", attr, "npy"]) = some e' ∧
+      e'.rows = e.rows :=
+  Lemmas.export_ids cfg v gen src h attr srcName hattr e he hrows
+
 /-! Non-vacuity: a curated 3-spike source with a temporary file and raw data, label `p0`. -/
 def exView : View :=
   { rate := 30000, samples := [0, 15000, 45000], times := [0, 1/2, 3/2], spikeClusters := [0, 2, 2], spikeTemplates := [0, 1, 1],
@@ -252,6 +267,9 @@ example : ((convertFS exCfg exView exGen ⟨exSrc, []⟩).fs.out.filter (fun f =
      ("channels.localCoordinates.p0.npy", 2)] := by decide +kernel
 example : ((convertFS exCfg exView exGen ⟨exSrc, []⟩).fs.out.lookup ["spikes", "clusters", "p0", "npy"]).map (·.tag) =
     some "u16:squeeze:h1" := by decide +kernel
+example : ((convertFS exCfg exView exGen ⟨exSrc, []⟩).fs.out.lookup ["spikes", "clusters", "p0", "npy"]).map (·.rows) =
+    some [.z 0, .z 2, .z 2] := by decide +kernel
+example : wrap16 (.z 65537) = .z 1 := by decide
 example : timesOf 30000 [0, 15000, 45000] = [0, 1/2, 3/2] := by decide +kernel
 example : loadSpikeSamples 4 (.inSeconds [1/16, 3/8, 5/8, 7/8] none) = ([0, 2, 2, 4], [1/16, 3/8, 5/8, 7/8]) := by
   decide +kernel
